@@ -189,7 +189,6 @@ func seqCases(quick bool) []seqCase {
 	r3 := []string{"pbft", "pbft", "inplace"}
 	r4 := []string{"pbft", "pbft", "inplace", "restart"}
 	ends := [][]int{{1, 1, 1}, {3}}
-	mids := [][]int{{1, 2}, {2, 1}}
 	if quick {
 		for _, base := range []string{"A1,B1,C1,D0", "A1"} {
 			emit(base, full, 1, compositions(1), r3)
@@ -203,9 +202,9 @@ func seqCases(quick bool) []seqCase {
 		emit(base, full, 1, compositions(1), r4)
 		emit(base, full, 2, compositions(2), r4)
 	}
-	emit("A1,B1,C1,D0", full, 3, ends, r4)
-	emit("A1,B1,C1,D0", corel, 3, mids, r3)
-	emit("A1", corel, 3, ends, r3)
+	emit("A1,B1,C1,D0", corel, 3, [][]int{{1, 1, 1}}, r4)
+	emit("A1,B1,C1,D0", corel, 3, [][]int{{3}, {1, 2}, {2, 1}}, r3)
+	emit("A1", mini, 3, ends, r3)
 	return out
 }
 
@@ -381,8 +380,18 @@ func main() {
 		run.Finish(nil, nil)
 	}
 
-	// ------------------------------------------------ part 1
+	// ------------------------------------------------ parts 2 and 3 run in worker processes, concurrently with part 1
 	t0 := time.Now()
+	var w workerOut
+	var t2 time.Duration
+	workersDone := make(chan struct{})
+	go func() {
+		w = runWorkers(run.Tier)
+		t2 = time.Since(t0)
+		close(workersDone)
+	}()
+
+	// ------------------------------------------------ part 1
 	maxLen := run.Pick(4, 5)
 	viols := newViolSet()
 	tallyClasses := core.NewCounter()
@@ -418,9 +427,8 @@ func main() {
 	}
 
 	t1 := time.Since(t0)
-	// ------------------------------------------------ part 2
-	w := runWorkers(run.Tier)
-	run.Notes = append(run.Notes, fmt.Sprintf("wall: part 1 %.1fs, part 2 %.1fs (informational)", t1.Seconds(), (time.Since(t0)-t1).Seconds()))
+	<-workersDone
+	run.Notes = append(run.Notes, fmt.Sprintf("wall (informational; the parts run concurrently): part 1 %.1fs, parts 2+3 %.1fs", t1.Seconds(), t2.Seconds()))
 	for _, f := range w.Viols {
 		var k interface{}
 		json.Unmarshal(f.Case, &k)
@@ -437,8 +445,19 @@ func main() {
 	viols.report(run)
 
 	names := make([]string, len(alphabet))
+	nCore, nMini := 0, 0
 	for i, l := range alphabet {
 		names[i] = l.Name
+		if l.Core {
+			nCore++
+		}
+		if l.Mini {
+			nMini++
+		}
+	}
+	tierRule := "thorough: EVERY sequence of length ≤2 over the full alphabet on both base sets in every split into blocks; EVERY sequence of length 3 over the core alphabet on {A1,B1,C1,D0} in every split into blocks (1|1|1, 1|2, 2|1, 3) and over the mini alphabet on {A1} split 1|1|1 and as one block"
+	if run.Quick() {
+		tierRule = "quick: EVERY sequence of length 1 over the full alphabet on both base sets, of length 2 over the full alphabet on {A1,B1,C1,D0} and over the mini alphabet on {A1} in both splits, and of length 3 over the mini alphabet on {A1,B1,C1,D0} split 1|1|1 and as one block"
 	}
 	distinct := tallyClasses.Len() + len(w.Classes)
 	run.Finish(core.Coverage{
@@ -447,8 +466,10 @@ func main() {
 		"traces_validated_against_impl": tallyCases + w.Cases + w.QueryCases,
 		"evaluations":                   tallyCases + w.Cases + w.QueryCases,
 		"distinct_nontrivial":           distinct,
-		"rule": "part 1: for each validator power vector, EVERY ordered list of length 0.." + strconv.Itoa(maxLen) + " over the entry kinds {valid signature of validator i (one per validator, incl. the zero-power one), W0/W1 = validator's key with its signature over a different message, N = genuine signature of a non-validator key, X01 = V0's key with V1's signature, PS/PL = V0's key one byte short/long, SS/SL = V0's signature halved/one byte long, E = empty entry}, duplicates arise as repeated letters; each list is put into an add_peer request and offered to the real AdminOp.ExecTX. " +
-			"part 2: every sequence (quick: length ≤2 over the full request alphabet on both base sets, length 3 over the core alphabet on {A1,B1,C1,D0} split as 1|1|1 and as one block; thorough: length ≤3 over the full alphabet, both base sets, every composition into blocks) of requests {add, update, remove, unknown command, unknown type} × targets {new key K, validator B, signer A, zero-power D} × nonce {n−1,n,n+1} × {bound sender, other sender, second administrator} × signature lists {all, exactly 2/3, one validator ×3, foreign keys, other message} × channel {governance contract, precompile called directly with forged sender bytes} + literal replays of earlier requests; distinct_nontrivial = distinct (set, verdict, entitled power, list shape) classes of part 1 + distinct (command, channel, model verdict, implementation verdict, recorded) and block-outcome classes of part 2; states = distinct (validator set, account nonces) model states reached + tally classes",
+		"rule": "part 1 (tally): for each validator power vector, EVERY ordered list of length 0.." + strconv.Itoa(maxLen) + " over the entry kinds {Vi = valid signature of validator i over the request (one kind per validator, incl. the zero-power one), W0 = V0's key with V0's signature over a different message, N = genuine signature of a non-validator key, X01 = V0's key with V1's signature, PS/PL = V0's key one byte short/long, SS/SL = V0's signature halved/one byte long, E = empty entry}; duplicates are repeated letters; each list is put into an add_peer request and offered to the real AdminOp.ExecTX. " +
+			"part 2 (sequence): requests = {add, update, remove, unknown command, unknown type} × targets {new key K, validator B, signer A, zero-power D} × nonce {n−1,n,n+1} × {bound sender, other sender, second administrator Y} × signature lists {all validators, exactly 2/3, one validator ×3, foreign keys, other message} × channel {governance contract, precompile 0xfe called directly with forged sender bytes} + literal replays of earlier requests (" + strconv.Itoa(len(alphabet)) + " letters; core " + strconv.Itoa(nCore) + ", mini " + strconv.Itoa(nMini) + "); " + tierRule + "; every case runs on 2 lock-step replicas (consensus pattern Copy→ApplyBlock) plus late replicas (in-place ApplyBlock; thorough also Save/LoadState + fresh plugins between blocks). " +
+			"part 3 (query): the same requests sent as read-only contract queries (current state / state of an earlier height) to one of two replicas running the real EVMApp. " +
+			"distinct_nontrivial = distinct (set, verdict, entitled power, list shape) classes of part 1 + distinct (command, channel, model verdict, implementation verdict, recorded) and block-outcome classes of parts 2/3; states = distinct (validator set, account nonces) model states reached + tally classes",
 		"exhaustive":         true,
 		"bounds":             map[string]interface{}{"max_signature_list_length": maxLen, "max_requests_per_sequence": 3, "validator_sets_part1": tallySetNames, "base_sets_part2": []string{"A1,B1,C1,D0", "A1"}},
 		"tally_cases":        tallyCases,
@@ -464,7 +485,7 @@ func main() {
 		"samples":                                  samples.List(),
 	}, []string{
 		"ed25519 / secp256k1 unforgeability: a validator 'really signed' iff the harness produced the signature with that key over exactly the request message",
-		"part 2 runs the real eth state transition, governance contract, AdminOP precompile, Angine.ExecAdminTx/BeginBlock/ExecBlock/EndBlock, plugin.AdminOp and State.ApplyBlock; consensus, p2p, mempool and block validation are not running (BlockVerifier stub accepts every block; block validity is C02) and the application is a stand-in that calls core.ApplyTransaction per block transaction the way chain/app/evm does",
+		"parts 2 and 3 run the real eth state transition, governance contract, AdminOP precompile, Angine.ExecAdminTx/BeginBlock/ExecBlock/EndBlock (plugins wired by the real InitPlugins), plugin.AdminOp and State.ApplyBlock; consensus, p2p, mempool and block validation are not running (BlockVerifier stub accepts every block; block validity is C02); in part 2 the application is a stand-in that calls core.ApplyTransaction per block transaction the way chain/app/evm does, in part 3 it is the real chain/app/evm.EVMApp",
 		"every harness transaction carries the sender's correct ethereum nonce (a transaction with a wrong ethereum nonce never reaches the precompile; that is C09)",
 	})
 }
